@@ -176,6 +176,15 @@ def run(args) -> int:
         for o, rows in L['tables'].items():
             if not isinstance(rows, list):
                 continue
+            rv = (L.get('tables_rev') or {}).get(o) or {}
+            base = {tuple(i): out for i, out in rows}
+            for label in ('reverse', 'reverse_mapping', 'again'):
+                got = rv.get(label)
+                if got is None or {tuple(i): out for i, out in got} != base:
+                    chk.violation(f'tt-orientation:{n}:{o}',
+                                  f'{n} {o}: truth_table() asked again ({label}) is a different function: {got if got is not None else rv.get("error")}',
+                                  dict(kind='truth_table_orientation', logic=n, operator=o, which=label, default=rows, other=got))
+                    break
             tf = {tuple(i): out for i, out in L['truth_function'][o]}
             evr = {tuple(i): out for i, out in ev[n].get(o, [])}
             for inp, out in rows:
